@@ -216,15 +216,33 @@ pub fn run_batch(
     // watchdog: (index being evaluated or u64::MAX, milliseconds since `start` at which it began)
     let slots: Vec<(AtomicU64, AtomicU64)> = (0..nw).map(|_| (AtomicU64::new(u64::MAX), AtomicU64::new(0))).collect();
     let active = AtomicU64::new(nw as u64);
+    let tids: Vec<AtomicU64> = (0..nw).map(|_| AtomicU64::new(0)).collect();
     std::thread::scope(|s| {
         s.spawn(|| {
-            let limit_ms = stuck_limit_s() * 1000;
+            // An evaluation counts as stuck when its thread has burnt `limit` seconds of CPU on one and the same
+            // index (a spinning loop does; a paused or overloaded machine does not: wall-clock time alone would
+            // raise a false alarm when the VM is suspended or starved). Wall-clock is only the fallback, with a
+            // tenfold margin, where /proc is not available.
+            let limit = stuck_limit_s() as f64;
+            let mut seen: Vec<(u64, Option<f64>, Instant)> = (0..nw).map(|_| (u64::MAX, None, Instant::now())).collect();
             while active.load(Ordering::SeqCst) > 0 {
                 std::thread::sleep(std::time::Duration::from_millis(200));
-                let now = start.elapsed().as_millis() as u64;
-                for (idx, began) in &slots {
+                for (k, (idx, _began)) in slots.iter().enumerate() {
                     let i = idx.load(Ordering::SeqCst);
-                    if i != u64::MAX && now.saturating_sub(began.load(Ordering::SeqCst)) > limit_ms {
+                    if i == u64::MAX {
+                        seen[k].0 = u64::MAX;
+                        continue;
+                    }
+                    let tid = tids[k].load(Ordering::SeqCst);
+                    if seen[k].0 != i {
+                        seen[k] = (i, thread_cpu_secs(tid), Instant::now());
+                        continue;
+                    }
+                    let stuck = match (seen[k].1, thread_cpu_secs(tid)) {
+                        (Some(a), Some(b)) => b - a > limit,
+                        _ => seen[k].2.elapsed().as_secs_f64() > 10.0 * limit,
+                    };
+                    if stuck {
                         report_stuck(check, seed, tier, i);
                     }
                 }
@@ -232,9 +250,11 @@ pub fn run_batch(
         });
         for w in 0..nw {
             let slot = &slots[w];
+            let tid_slot = &tids[w];
             let active = &active;
             let (next, stop, cap, budget_hit, total) = (&next, &stop, &cap, &budget_hit, &total);
             s.spawn(move || {
+                tid_slot.store(current_tid(), Ordering::SeqCst);
                 let mut acc = Acc::default();
                 loop {
                     if stop.load(Ordering::Relaxed) {
@@ -331,6 +351,25 @@ fn stuck_limit_s() -> u64 {
 
 pub const STUCK_RULE: &str = "run_does_not_terminate";
 
+/// Kernel thread id of the calling thread (0 if it cannot be determined).
+fn current_tid() -> u64 {
+    std::fs::read_link("/proc/thread-self").ok().and_then(|p| p.file_name().and_then(|n| n.to_str().and_then(|n| n.parse().ok()))).unwrap_or(0)
+}
+
+/// CPU seconds (user + system) the thread has consumed so far, from /proc (clock ticks of 1/100 s).
+fn thread_cpu_secs(tid: u64) -> Option<f64> {
+    if tid == 0 {
+        return None;
+    }
+    let stat = std::fs::read_to_string(format!("/proc/self/task/{tid}/stat")).ok()?;
+    // the command name may contain spaces: fields are counted after the closing parenthesis
+    let rest = &stat[stat.rfind(')')? + 1..];
+    let f: Vec<&str> = rest.split_whitespace().collect();
+    let utime: f64 = f.get(11)?.parse().ok()?;
+    let stime: f64 = f.get(12)?.parse().ok()?;
+    Some((utime + stime) / 100.0)
+}
+
 /// An evaluation that spins without ever yielding to the simulator cannot be pre-empted on one thread
 /// and cannot be shrunk; it is reported as it is (seed, index, generated scenario) and the process ends.
 fn report_stuck(check: &dyn Erased, seed: u64, tier: Tier, index: u64) -> ! {
@@ -342,7 +381,7 @@ fn report_stuck(check: &dyn Erased, seed: u64, tier: Tier, index: u64) -> ! {
         });
         rx.recv_timeout(std::time::Duration::from_secs(20)).unwrap_or(Value::Null)
     });
-    let msg = format!("evaluation #{index} did not finish within {} s of real time: the code under simulation loops without yielding (virtual time cannot advance)", stuck_limit_s());
+    let msg = format!("evaluation #{index} burnt more than {} s of CPU time without finishing: the code under simulation loops without yielding (virtual time cannot advance)", stuck_limit_s());
     let path = write_replay(check, seed, index, STUCK_RULE, &sc, &msg);
     println!("violation: property={} rule={} seed={} index={} (not minimised): {}", check.id(), STUCK_RULE, seed, index, msg);
     println!("VIOLATION property={} replay={}", check.id(), path.display());
@@ -586,13 +625,30 @@ pub fn replay_file(checks: &[Box<dyn Erased>], path: &str) -> i32 {
     let scv = v["scenario"].clone();
     let res = std::thread::scope(|s| {
         let (tx, rx) = std::sync::mpsc::channel();
+        let tid = std::sync::Arc::new(AtomicU64::new(0));
+        let tid2 = tid.clone();
         s.spawn(move || {
+            tid2.store(current_tid(), Ordering::SeqCst);
             let _ = tx.send(check.execute_json(&scv));
         });
-        match rx.recv_timeout(std::time::Duration::from_secs(limit)) {
-            Ok(r) => Some(r),
-            Err(_) => {
-                println!("replayed violation property={id} rule={STUCK_RULE} : the evaluation does not finish within {limit} s of real time");
+        let started = Instant::now();
+        let mut cpu0: Option<f64> = None;
+        loop {
+            match rx.recv_timeout(std::time::Duration::from_millis(200)) {
+                Ok(r) => break Some(r),
+                Err(std::sync::mpsc::RecvTimeoutError::Disconnected) => break None,
+                Err(std::sync::mpsc::RecvTimeoutError::Timeout) => {}
+            }
+            let now = thread_cpu_secs(tid.load(Ordering::SeqCst));
+            if cpu0.is_none() {
+                cpu0 = now;
+            }
+            let stuck = match (cpu0, now) {
+                (Some(a), Some(b)) => b - a > limit as f64,
+                _ => started.elapsed().as_secs() > 10 * limit,
+            };
+            if stuck {
+                println!("replayed violation property={id} rule={STUCK_RULE} : the evaluation does not finish within {limit} s of CPU time");
                 if rule == STUCK_RULE {
                     println!("VIOLATION property={id} replay={path}");
                     std::process::exit(1);
